@@ -157,3 +157,72 @@ Theorem C19_enqueue_check_then_act_refuted :
               In t (st_ths s) /\ ~ obs_consistent lay2 (t_obs t).
 Proof. exact check_then_act_refuted. Qed.
 Print Assumptions C19_enqueue_check_then_act_refuted.
+
+Require Import Verif.Check.C19_check Verif.Proofs.JudgeSoundC19P.
+(* ---- the executable properties of Check/C19_check.v are the property (judge soundness) ---- *)
+(* walk_prop strict vw w ttl [] evs outs (Proofs/JudgeSoundC19P.v) says, for the k-th event of a schedule and the k-th
+   recorded observation: an Observe is answered (never Blocked; an error only under the composite and only for
+   unexpired fetched data with another slot count), with one entry per message, keyed alike, showing the placeholder
+   or data that an EARLIER fetch of that message returned, all supported tokens ready, not older than ttl
+   (C19_nonblocking, C19_shape, C19_ready_only_not_expired, C19_cache_provenance); if pick-ups and a probe follow, every
+   message asked for was served, or waits, or is being fetched (C19_asked_is_accounted); a pick-up took a waiting message
+   in FIFO order (C19_eventual_take_partial); a probe finds no idle worker next to a waiting message, no message
+   waiting twice and no more waiting messages than distinct ids asked for (C19_queue_inv). *)
+
+(* bg: the model follows every schedule that sched_ok accepts - stored fetch results belong to running fetches, recorded
+   pick-ups are possible in FIFO order, probes are taken when no worker idles next to a waiting message, running fetches
+   return after Close - and then its own observations pass bg_ok *)
+Theorem C19_judge_bg_model_passes : forall w ttl evs,
+  sched_ok w ttl (binit w) evs = true -> bg_ok (w, ttl, evs) (bg_model (w, ttl, evs)) = true.
+Proof. exact bg_model_passes. Qed.
+Print Assumptions C19_judge_bg_model_passes.
+
+Theorem C19_judge_bg_sound : forall w ttl evs o,
+  bg_ok (w, ttl, evs) o = true ->
+  walk_prop true (fun _ d => d) w ttl [] evs (fst o) /\ fst (snd o) = true /\ snd (snd o) = true.
+Proof. exact bg_sound. Qed.
+Print Assumptions C19_judge_bg_sound.
+
+(* comp: the same through the composite observer's merge view *)
+Theorem C19_judge_comp_model_passes : forall w ttl evs,
+  sched_ok w ttl (binit w) evs = true -> comp_ok (w, ttl, evs) (comp_model (w, ttl, evs)) = true.
+Proof. exact comp_model_passes. Qed.
+Print Assumptions C19_judge_comp_model_passes.
+
+Theorem C19_judge_comp_sound : forall w ttl evs o,
+  comp_ok (w, ttl, evs) o = true ->
+  walk_prop false comp_view w ttl [] evs (fst (fst o)) /\
+  fst (snd (fst o)) = true /\ snd (snd (fst o)) = true /\ snd o = true.
+Proof. exact comp_sound. Qed.
+Print Assumptions C19_judge_comp_sound.
+
+(* ctor / plugin: the executable property is equality with the model's output *)
+Theorem C19_judge_ctor_model_passes : forall i, ctor_ok i (ctor_model i) = true.
+Proof. exact ctor_model_passes. Qed.
+Print Assumptions C19_judge_ctor_model_passes.
+
+Theorem C19_judge_ctor_sound : forall wk e c t o, ctor_ok (wk, e, c, t) o = true ->
+  (wk = 0%N -> o = (false, 0, 0, 0, 0, 0, 0)%N) /\ (wk <> 0%N -> o = (true, wk, wk + 1, e, c, t, 0)%N).
+Proof. exact ctor_sound_cfg. Qed.
+Print Assumptions C19_judge_ctor_sound.
+
+Theorem C19_judge_plug_model_passes : forall i, plug_ok i (plug_model i) = true.
+Proof. exact plug_model_passes. Qed.
+Print Assumptions C19_judge_plug_model_passes.
+
+Theorem C19_judge_plug_sound : forall wk ms ds o1 o2 n c l,
+  plug_ok (wk, ms, ds) (o1, o2, n, c, l) = true -> length ds = length ms ->
+  exists es1 es2,
+    o1 = OObs (Done es1) /\ o2 = OObs (Done es2) /\
+    Forall2 (fun md e => e = (m_chain (fst md), m_seq (fst md), comp_view (fst md) (initial_td (fst md)))) (combine ms ds) es1 /\
+    Forall2 (fun md e => e = (m_chain (fst md), m_seq (fst md),
+                              comp_view (fst md) (if sup_ready (snd md) then snd md else initial_td (fst md)))) (combine ms ds) es2 /\
+    n = N.of_nat (length ms) /\ c = true /\ l = true.
+Proof. exact plug_sound_round. Qed.
+Print Assumptions C19_judge_plug_sound.
+
+(* the first answer prescribed by plug_model is the composite model's answer to one Observe on a fresh observer *)
+Theorem C19_judge_plug_first_is_comp : forall wk ttl ms ds now, length ds = length ms ->
+  fst (fst (comp_model (wk, ttl, [BObserve ms now]))) = [OObs (Done (plug_entries ms ds false))].
+Proof. exact plug_first_is_comp. Qed.
+Print Assumptions C19_judge_plug_first_is_comp.
